@@ -27,7 +27,7 @@ CHECKS["C06"] = dict(
          "nothing delivered when a length prefix was enlarged/stream truncated), nothing is delivered afterwards, pending reads/consumer Deferreds fail; "
          "both directions, receive_record and consumer modes; send/receive keys pair up across the ends and differ per direction.",
     note="NaCl SecretBox replaced by the ideal AEAD env/box.py in symbolic runs (counterexamples are replayed with the real SecretBox first); "
-         "int(hexlify(b),16) as linear arithmetic; record sizes small (0..3 bytes), 64KiB+ records outside the claim; symrun + loader + z3 trusted.",
+         "int(hexlify(b),16) as linear arithmetic; byte-level jobs use small records (0..3 bytes); job big_records makes the two record lengths solver variables (any size < 2**32-40, payloads opaque ropes); symrun + loader + z3 trusted.",
     ref="6/C06")
 
 CHECKS["C07"] = dict(
@@ -168,7 +168,7 @@ CHECKS["C04"] = dict(
     ref="6/C04")
 CHECKS["C05"] = dict(
     text="The receiver's real _decide_destname/_remove_existing/_ask_permission/_handle_file/_handle_directory/_write_file/_extract_file/_write_directory run on fully "
-         "symbolic offered names and zip member names (every code point; length <= 3/4), crossed with --output-file unset/new/existing file/existing directory, accept-file "
+         "symbolic offered names and zip member names (every code point; length <= 5 quick / 8 thorough), crossed with --output-file unset/new/existing file/existing directory, accept-file "
          "on/off and every prompt answer: z3 shows every recorded mutation (open-for-write, remove, rename, chmod, extract) lies at or beneath the announced destination (or "
          "its .tmp sibling), the destination is a proper child of the cwd / of the --output-file directory or the --output-file target itself, no directory is ever removed, "
          "no file is removed without --output-file, an existing destination is refused before any mutation, zip members never land outside the destination directory.",
@@ -182,7 +182,9 @@ ADDED = {
            "configurations with starved delivery and with three phases sent in a burst; a vacuity witness requires that an early authentic injection is accepted and delivered.",
     "C04": " Text messages and offered names additionally travel through the real json round trip as CONCRETE samples (json is C code; sampled, not solver-decided); "
            "_write_directory over solver-chosen archive member lists incl. empty directories.",
-    "C06": " Job read_modes: solver-chosen schedules mixing receive_record() and consumer mode (symbolic expected byte count) over a backlog; every record reaches one sink, in sent order.",
+    "C06": " Job big_records: two honest records whose LENGTHS are solver variables (0..2**32-41; opaque rope payloads) framed by the real send_record and parsed by the real "
+           "receiver whole and split at a solver-chosen byte: both deliver exactly the two payloads and end in the same parser state (framing arithmetic for every size incl. 64 KiB+)."
+           " Job read_modes: solver-chosen schedules mixing receive_record() and consumer mode (symbolic expected byte count) over a backlog; every record reaches one sink, in sent order.",
     "C08": " Reconnect attempts that fail before onOpen are schedule actions; verdict/resource clauses are judged also after an internal failure the configuration did not provoke.",
     "C09": " Reconnect attempts that die during the WebSocket negotiation (after a first successful connection) are part of the loss model.",
     "C11": " TCP may split a chunk at its half, after its first byte or before its last byte (schedule actions).",
